@@ -75,9 +75,11 @@ func TestRegressC05(t *testing.T) {
 		{Strategy: 1, AgeVsDur: 2, NoRestarts: 0, LastRestart: 0, Pause: 0, Valid: 0, Failed: true, ActiveExists: true},
 		{Strategy: 1, AgeVsDur: 3, NoRestarts: 1, LastRestart: 0, Pause: 0, Valid: 0, Failed: true, ActiveExists: true, StatusCanary: 1},
 		{Strategy: 2, AgeVsDur: 3, Valid: 2, ActiveExists: true, StatusCanary: 2},
+		// F20: the pause annotation lands between the promoting reconcile's read and its status write
+		{Strategy: 1, AgeVsDur: 2, ActiveExists: true, PauseLands: true},
 	} {
 		vs, _, err := runC05(k)
-		regress(t, rec, "F3-"+k.String(), vs, err, k)
+		regress(t, rec, "F3/F20-"+k.String(), vs, err, k)
 	}
 	rec.Done()
 }
